@@ -10,7 +10,7 @@ from harness import apr, asmfam
 
 def run(ctx) -> None:
     q = ctx.quick
-    fams = [("ctl", 5 if q else 6), ("assignleak", 5 if q else 6), ("shadowloop2", 5 if q else 7), ("splice", 6 if q else 7), ("forneg", 4 if q else 5), ("deferall", 4 if q else 5)]
+    fams = [("ctl", 5 if q else 6), ("assignleak", 5 if q else 6), ("shadowloop2", 5 if q else 7), ("splice", 6 if q else 7), ("forneg", 4 if q else 5), ("deferall", 4 if q else 5), ("loopscope", 6 if q else 7)]
     ctx.rule = ("programs = every program over the 'ctl' alphabet of MC_Asm (<= %d statements: .if over 1/0/-1/constant/undefined "
                 "name with and without else, .for over empty/single/many ranges and a constant bound, labels and data using "
                 "the loop variable, one level of nesting), the 'assignleak' (:= inside loop/macro/block bodies over an outer constant) and "
